@@ -41,7 +41,7 @@ def describe_A(t):
 
 def check(run, replay=None):
     tier, seed = run.tier, run.seed
-    C.standard_coq_phase(run, CID, gens=("fastexp",))
+    C.standard_coq_phase(run, CID, gens=("fastexp", "vecguard"))
     ok, msg = C.ensure_ocaml()
     if not ok:
         run.finding("build:c05", "broken-obligation", "cannot build the model driver: " + msg[-600:], {})
